@@ -9,7 +9,20 @@ RULE = ("random context-free grammars as in C08 (incl. empty-language grammars, 
         "all words of length <=4/5 by the independent membership oracle, and their shape (only useful symbols / no "
         "epsilon production / no unit production / Chomsky forms and is_normal_form()) on the implementation's "
         "result. Non-trivial: >=2 productions, one with a body of length >=2.")
-THEOREMS = []
+THEOREMS = ["Pfl.CFG.mk'_wf",
+            "Pfl.CFG.mk'_prods",
+            "Pfl.CFG.removeUseless_lang",
+            "Pfl.CFG.removeUseless_useful",
+            "Pfl.CFG.removeEpsilon_lang",
+            "Pfl.CFG.removeEpsilon_noEps",
+            "Pfl.CFG.elimUnit_lang",
+            "Pfl.CFG.elimUnit_noUnit",
+            "Pfl.CFG.toNormalForm_lang",
+            "Pfl.CFG.toNormalForm_isNormalForm",
+            "Pfl.CFG.cfgMem_iff",
+            "Pfl.CFG.mem_langUpTo_iff",
+            "Pfl.CFG.mem_generating_iff",
+            "Pfl.CFG.mem_reachable_iff"]
 OPS = [("remove_useless_symbols", "removeUseless"), ("remove_epsilon", "removeEpsilon"),
        ("eliminate_unit_productions", "elimUnit"), ("to_normal_form", "toNormalForm")]
 
